@@ -258,7 +258,7 @@ def _infer_dtype(a):
       kinds.add('b')
     elif isinstance(x, (int, np.integer)):
       kinds.add('i')
-    elif isinstance(x, (float, Fr, P, np.floating)):
+    elif isinstance(x, (float, Fr, P, np.floating, Inf)):
       kinds.add('f')
     elif isinstance(x, str):
       kinds.add('s')
@@ -275,8 +275,30 @@ def _infer_dtype(a):
   return float32
 
 
+class Inf(object):
+  """+-infinity constant: only a bound for maximum / minimum (tf.clip_by_value)."""
+  __slots__ = ('sign',)
+
+  def __init__(self, sign):
+    self.sign = sign
+
+  def __repr__(self):
+    return '+inf' if self.sign > 0 else '-inf'
+
+  def _no(self, *a):
+    raise NoContract('arithmetic on an infinite constant')
+  __add__ = __radd__ = __sub__ = __rsub__ = __mul__ = __rmul__ = __truediv__ = __neg__ = _no
+
+
+PINF, NINF = Inf(1), Inf(-1)
+
+
 def _conv_elem(x, dt):
   if dt.kind == 'f':
+    if isinstance(x, Inf):
+      return x
+    if isinstance(x, (float, np.floating)) and x in (float('inf'), float('-inf')):
+      return PINF if x > 0 else NINF
     if isinstance(x, P):
       return x
     if isinstance(x, (B,)):
@@ -634,12 +656,18 @@ def negative(x, name=None):
 def _maximum(a, b):
   if isinstance(a, int) and isinstance(b, int):
     return a if a >= b else b
+  for x, y in ((a, b), (b, a)):
+    if isinstance(x, Inf):
+      return x if x.sign > 0 else y
   return E.pmax(a, b)
 
 
 def _minimum(a, b):
   if isinstance(a, int) and isinstance(b, int):
     return a if a <= b else b
+  for x, y in ((a, b), (b, a)):
+    if isinstance(x, Inf):
+      return x if x.sign < 0 else y
   return E.pmin(a, b)
 
 
